@@ -57,10 +57,10 @@ CLAIMS = {
 }
 
 CLAIMS['C16'] = dict(
-    text=('Proof, per function, of the partition skeleton: partition_helper_state constructor/takeLow/takeHigh/update (critical sections: lock invariant kept, the block handed out and the remaining '
+    text=('Proof, per function: partial_sum\'s block size, per-block passes, exclusive scan and block partition lemma; and of the partition skeleton: partition_helper_state constructor/takeLow/takeHigh/update (critical sections: lock invariant kept, the block handed out and the remaining '
           'middle partition the old middle, leftover span well formed) and the sequential tail of partition() (with the parallel phase replaced by the assumed contract its step contracts justify): '
           'the returned iterator is a valid partition point for an arbitrary element, in the no-leftover case and with leftovers on either or both sides; std::partition always gets a valid range.'),
-    note=('Only partition is claimed. sort, count_if, find_if, accumulate, map_reduce, partial_sum, destroy, dual_partition, permutation preservation and the std:: algorithms are NOT decided. '
+    note=('Only partition and the arithmetic of partial_sum are claimed. sort, count_if, find_if, accumulate, map_reduce, destroy, the composition of partial_sum\'s passes, dual_partition, permutation preservation and the std:: algorithms are NOT decided. '
           'Trusted: assumed contract for the parallel phase, std::partition stub, random-access iterators as indices.'))
 
 CLAIMS['C03'] = dict(
